@@ -205,13 +205,13 @@ func init() {
 			case 6:
 				return "severity:" + c.r.Pick("0", "2", "7", "CRITICAL", "NOTICE")
 			case 7:
-				return "msg:'" + c.r.Pick("m", "x %{MATCHED_VAR}", "%{tx.a}", "%{rule.id}", "%{json.a}", "%{xml.b}", "%{args.q}") + "'"
+				return "msg:'" + c.r.Pick("m", "x %{MATCHED_VAR}", "%{", "%{%{", "%{}", "%{.}", "%{tx.}", "%{tx.a}", "%{rule.id}", "%{json.a}", "%{xml.b}", "%{args.q}") + "'"
 			case 8:
-				return "logdata:'" + c.r.Pick("%{MATCHED_VAR}", "%{MATCHED_VAR}", "%{MATCHED_VAR_NAME}", "%{tx.0}", "d", "%{request_headers.host}", "%{files_tmp_content.a}", "%{geo.country}") + "'"
+				return "logdata:'" + c.r.Pick("%{MATCHED_VAR}", "%{MATCHED_VAR}", "%{", "%", "%{tx", "%{MATCHED_VAR_NAME}", "%{tx.0}", "d", "%{request_headers.host}", "%{files_tmp_content.a}", "%{geo.country}") + "'"
 			case 9:
 				return "tag:'" + c.r.ASCII(3) + "'"
 			case 10, 11, 12:
-				return "setvar:'" + c.r.Pick("tx.a=+1", "tx.a=-1", "!tx.a", "tx.a", "tx.b=%{tx.a}", "tx.%{tx.a}=1", "tx.c=%{matched_var}", "tx.a=+%{tx.b}", "tx.s=", "TX.a=x", "tx.a=%{env.x}", "tx.a=%{rule.msg}", "tx.a=%{json.x}", "tx.a=%{xml.x}") + "'"
+				return "setvar:'" + c.r.Pick("tx.a=+1", "tx.a=-1", "!tx.a", "tx.a", "tx.b=%{tx.a}", "tx.%{tx.a}=1", "tx.c=%{matched_var}", "tx.a=+%{tx.b}", "tx.s=", "TX.a=x", "tx.a=%{env.x}", "tx.a=%{rule.msg}", "tx.a=%{json.x}", "tx.a=%{xml.x}", "tx.a=%{", "tx.a=%{%{", "tx.%{=1", "tx.a=%") + "'"
 			case 13:
 				return "setenv:'" + c.r.Pick("a=b", "a", "=b", "a=%{tx.a}") + "'"
 			case 14, 15, 16:
@@ -248,7 +248,7 @@ func init() {
 			case "inspectFile", "ipMatchFromFile", "ipMatchF", "validateSchema", "validateDTD":
 				return "@unconditionalMatch"
 			}
-			return "@" + o + " " + c.r.Pick("a", "", "%{tx.a}", "x y", "1")
+			return "@" + o + " " + c.r.Pick("a", "", "%{tx.a}", "x y", "1", "%{", "%{%{")
 		}
 		goodRule := func() string {
 			nt := 1 + c.r.Intn(2)
